@@ -212,7 +212,7 @@ impl Engine for HrEngine {
             // ---------------------------------------------------------------- C05: an asset first loaded DURING a pass (known finding F-C05d)
             6 => {
                 let n = if tier == Tier::Thorough { 60 } else { 24 };
-                match (idx / 8) % 3 { 0 => l.push(format!("newdep {n}")), 1 => l.push(format!("rewire {n}")), _ => l.push("cross 2".to_string()) }
+                match (idx / 8) % 4 { 0 => l.push(format!("newdep {n}")), 1 => l.push(format!("rewire {n}")), 2 => l.push("cross 2".to_string()), _ => l.push("order 8".to_string()) }
             }
             // ---------------------------------------------------------------- C05: convergence over random DAGs
             _ => {
@@ -275,6 +275,10 @@ impl Engine for HrEngine {
     fn exec_case(&mut self, lines: &[String], rec: &mut CaseRec) {
         if let Some(n) = lines.first().and_then(|l| l.strip_prefix("newdep ")).and_then(|n| n.parse::<usize>().ok()) {
             newdep_probe(n, rec);
+            return;
+        }
+        if let Some(n) = lines.first().and_then(|l| l.strip_prefix("order ")).and_then(|n| n.parse::<usize>().ok()) {
+            order_probe(n, rec);
             return;
         }
         if let Some(n) = lines.first().and_then(|l| l.strip_prefix("cross ")).and_then(|n| n.parse::<usize>().ok()) {
@@ -510,6 +514,37 @@ fn cross_probe(rounds: usize, rec: &mut CaseRec) {
     rec.stat("family=cross-cache");
     for m in &bad { rec.oracle_fail(m.clone()); }
     rec.op(format!("hr.cross {rounds}"), if bad.is_empty() { "isolated" } else { "leaked" });
+}
+
+/// C14 / C05: the registration of a load (AddAsset message) is taken before an event that arrives after it, whatever woke the
+/// reloader: an asset loaded just before one of its files is edited follows that edit. The reloader is held (yield hook) after
+/// an unrelated event woke it; meanwhile `n` is loaded and edited, so its AddAsset and the event about `n.s` are both pending.
+fn order_probe(trials: usize, rec: &mut CaseRec) {
+    let mut lost = 0usize;
+    for t in 0..trials {
+        let mut wx = WorldExec::new("shared", "hot");
+        wx.op(&format!("src.put {} {} {} 0", hexs("a"), hexs("s"), hexs("1")));
+        wx.op(&format!("src.put {} {} {} 0", hexs("n"), hexs("s"), hexs("5")));
+        wx.op(&format!("load S0 {}", hexs("a")));
+        let Some(tx) = wx.src.sender() else { break };
+        crate::exec_world::stall(true);
+        let _ = tx.send(assets_manager::source::OwnedDirEntry::File("noise".into(), "s".into()));   // wakes the thread with "events ready"
+        std::thread::sleep(std::time::Duration::from_millis(3));
+        // (directly on the cache: `WorldExec::op` would wait for the reloader to be quiescent)
+        if let Fe::Shared(c) = &wx.fe { let _ = c.load::<crate::types::S<0>>("n"); }                  // AddAsset pending
+        wx.src.put("n", "s", crate::types::FileSt::Bytes(format!("{}", 6 + t).into_bytes().into(), 0));
+        let _ = tx.send(assets_manager::source::OwnedDirEntry::File("n".into(), "s".into()));         // event about n.s pending
+        crate::exec_world::stall(false);
+        wx.op("reload");
+        let got = wx.peek("S0", "n").map(|p| p.0);
+        if got != Some(format!("v:{}", 6 + t)) { lost += 1; }
+        drop(wx);
+    }
+    crate::exec_world::stall(false);
+    rec.nontrivial = true;
+    rec.stat("family=order");
+    if lost > 0 { rec.oracle_fail(format!("wrong-attribution an edit of n.s notified right after `load n` returned was lost in {lost} of {trials} trials: the event was handled before the registration of the load (n keeps its old value after hot_reload)")); }
+    rec.op(format!("hr.order {trials}"), if lost == 0 { "kept" } else { "lost" });
 }
 
 fn newdep_probe(trials: usize, rec: &mut CaseRec) {
